@@ -12,6 +12,7 @@ def parseSteps (s : String) : List Step :=
     else if t.startsWith "Y" then
       let ts := rest.toNat?.getD 0
       [.enter, .setSys (.susp ts), .until_ 0 ts, .setSys .exec, .exit]
+    else if t.startsWith "K" then [.req (rest.toNat?.getD 0)]
     else if t.startsWith "P" then [.panic (rest.toNat?.getD 0)]
     else if t.startsWith "R" then [.ret (rest.toNat?.getD 0)]
     else [])
@@ -23,7 +24,7 @@ def showOutcome (i : Nat) : Outcome → String
 /-- the value a program finishes with (for the C10 spec) -/
 def expected (prog : String) : String :=
   match (prog.splitOn ",").getLast? with
-  | some t => if t.startsWith "R" then s!"Ok({(t.drop 1).toString})" else if t == "P0" then "Err(boom)" else if t.startsWith "P" then s!"Err(boom{(t.drop 1).toString})" else "?"
+  | some t => if t.startsWith "R" then s!"Ok({(t.drop 1).toString})" else if t.startsWith "P" then s!"Err({Oc.Co.panicMsg ((t.drop 1).toString.toNat?.getD 0)})" else "?"
   | none => "?"
 
 structure D where
@@ -35,6 +36,8 @@ structure D where
   /-- coroutines whose result has been reported -/
   reported : List Nat := []
   cancelled : List Nat := []
+  /-- coroutines some program asks to cancel from inside its body (`K<j>` steps) -/
+  targets : List Nat := []
 
 def stepOp (d : D) (o io : String) : D :=
   let abn := (words io).any (fun w => w == "ABORT" || w == "HANG")
@@ -42,7 +45,9 @@ def stepOp (d : D) (o io : String) : D :=
   match words o with
   | ["sub", prog, prio] =>
     let k := d.s.cos.length
-    { d with s := submit d.s (parseSteps prog) (prio.toInt?.getD 0), progs := d.progs ++ [prog], outs := d.outs ++ [s!"id{k}"] }
+    { d with s := submit d.s (parseSteps prog) (prio.toInt?.getD 0), progs := d.progs ++ [prog], outs := d.outs ++ [s!"id{k}"],
+             targets := d.targets ++ ((prog.splitOn ",").filter (·.startsWith "K")).filterMap (fun t => (t.drop 1).toString.toNat?),
+             labels := (if (prog.splitOn ",").any (·.startsWith "K") then ["sub.requests-cancel-in-slice"] else []) ++ d.labels }
   | ["adv", n] => { d with s := advance d.s (n.toNat?.getD 0), outs := d.outs ++ ["-"] }
   | ["cancel", k] =>
     let k := k.toNat?.getD 0
@@ -71,7 +76,7 @@ def stepOp (d : D) (o io : String) : D :=
                   if v != expected (d.progs.getD i "") then some s!"[wrong-result] coroutine {i} reported {v}, its program ends with {expected (d.progs.getD i "")}" else none
       | _ => some s!"[wrong-result] unreadable {r}")
     let f3 := (notDue.filter (fun i => ires.contains i ∧ !dueSusp.contains i)).map (fun i => s!"[resumed-early] coroutine {i} resumed at {now} before its wake-up time")
-    let f4 := (dueSusp.filter (fun i => !ires.contains i ∧ !d.s.cancel.contains i)).map (fun i => s!"[not-resumed-when-due] coroutine {i} was due at {now} but this pass did not resume it")
+    let f4 := (dueSusp.filter (fun i => !ires.contains i ∧ !d.s.cancel.contains i ∧ !d.targets.contains i)).map (fun i => s!"[not-resumed-when-due] coroutine {i} was due at {now} but this pass did not resume it")
     let f5 := (ires.filter (fun i => d.s.cancel.contains i ∧ !po.resumed.contains i)).map (fun i => s!"[resumed-after-cancel] cancelled coroutine {i} was resumed")
     let f6 := if io == "passerr" then [s!"[pass-failed] scheduling pass failed"] else []
     { d with s := s', outs := d.outs ++ [m], fails := d.fails ++ f1 ++ f2 ++ f3 ++ f4 ++ f5 ++ f6,
@@ -88,7 +93,7 @@ def drive (body impl : String) : Verdict :=
   let d := (ops.zip outs).foldl (fun d oi => stepOp d oi.1 oi.2) ({} : D)
   -- every coroutine that was not cancelled finishes and is reported (the case ends with a long
   -- advance and a final pass)
-  let missing := (List.range d.s.cos.length).filter (fun i => !d.reported.contains i ∧ !d.cancelled.contains i)
+  let missing := (List.range d.s.cos.length).filter (fun i => !d.reported.contains i ∧ !d.cancelled.contains i ∧ !d.targets.contains i)
   let fails := d.fails ++ (if missing.isEmpty then [] else [s!"[never-reported] coroutines {missing} never finished/reported although scheduling continued past every wake-up time"])
   { modelOut := joinWith " | " d.outs, spec := [("C10", fails.isEmpty, joinWith " ; " fails)], labels := d.labels.eraseDups }
 
